@@ -188,6 +188,13 @@ func freshExternal(id string) bool {
 	return false
 }
 
+// aliasFirstOnly: external functions whose result is (pieces of) their first operand and nothing else.
+var aliasFirstOnly = map[string]bool{
+	"bytes.Split": true, "bytes.SplitN": true, "bytes.SplitAfter": true, "bytes.SplitAfterN": true, "bytes.Fields": true,
+	"bytes.TrimSuffix": true, "bytes.TrimPrefix": true, "bytes.TrimSpace": true, "bytes.Trim": true, "bytes.TrimLeft": true,
+	"bytes.TrimRight": true, "bytes.TrimFunc": true, "bytes.TrimLeftFunc": true, "bytes.TrimRightFunc": true,
+}
+
 // externalMutator: the argument positions an external callee may write through.
 func externalMutator(id string) []int {
 	switch id {
@@ -333,6 +340,14 @@ func (a *analysis) derived(u *unit, isSource func(types.Object) bool) *derivatio
 							join(o, 1)
 						}
 					}
+				}
+				return src, lv
+			}
+			// library functions whose result is a piece of their FIRST operand only (a separator or cut set
+			// is read, never handed back)
+			if fn := core.Callee(info, x); fn != nil && aliasFirstOnly[core.FuncID(fn)] && len(x.Args) > 0 {
+				if o, l := level(x.Args[0]); l > 0 {
+					join(o, 2)
 				}
 				return src, lv
 			}
